@@ -152,21 +152,48 @@ thread_local! {
     static LAST_PANIC: RefCell<Option<PanicInfo>> = const { RefCell::new(None) };
 }
 
-/// Decide whether a panic raised in third-party code (std, num-bigint, ...) was raised on behalf of
-/// the repository or of the harness: the innermost backtrace frame that lies in either wins.
+/// Decide whether a panic raised in third-party code (std, num-bigint, ...) or at a harness source
+/// location was raised on behalf of the repository or of the harness. Two rules, applied to the
+/// backtrace from the innermost frame outwards (panic machinery, std and the monitor crate skipped):
+///  * a frame whose *symbol* is repository code (an `ark_*` function, or an `impl ... as ark_*`
+///    method — this is how code generated by the repository's derive macros appears: its source
+///    location is the harness file that invokes the macro, but the function is the library's) or
+///    whose *file* lies in the repository  => repository;
+///  * otherwise a frame in a harness file => harness.
 fn classify_by_backtrace() -> (bool, Option<String>) {
     let bt = std::backtrace::Backtrace::force_capture().to_string();
+    let mut cur_sym = String::new();
     for line in bt.lines() {
         let l = line.trim();
         if let Some(rest) = l.strip_prefix("at ") {
-            if is_repo_path(rest) {
-                // strip the column
+            let skip = cur_sym.starts_with("std::")
+                || cur_sym.starts_with("core::")
+                || cur_sym.starts_with("alloc::")
+                || cur_sym.starts_with("<std::")
+                || cur_sym.starts_with("<core::")
+                || cur_sym.starts_with("<alloc::")
+                || cur_sym.starts_with("rust_begin_unwind")
+                || cur_sym.starts_with("__rust")
+                || cur_sym.starts_with("monitor::")
+                || cur_sym.starts_with("<monitor::");
+            if skip {
+                continue;
+            }
+            let sym_is_repo = cur_sym.starts_with("ark_") || cur_sym.starts_with("<ark_") || cur_sym.contains(" as ark_");
+            if sym_is_repo || is_repo_path(rest) {
                 let mut parts = rest.rsplitn(2, ':');
                 let _col = parts.next();
-                return (false, Some(parts.next().unwrap_or(rest).to_string()));
+                let loc = parts.next().unwrap_or(rest).to_string();
+                let via = if is_repo_path(rest) { loc } else { format!("{} (generated by a repository macro, expanded at {})", cur_sym, loc) };
+                return (false, Some(via));
             }
             if is_harness_path(rest) && !rest.contains("/monitor/src/") {
                 return (true, None);
+            }
+        } else if let Some(idx) = l.find(": ") {
+            // "  12: symbol"
+            if l[..idx].chars().all(|c| c.is_ascii_digit()) {
+                cur_sym = l[idx + 2..].to_string();
             }
         }
     }
@@ -189,13 +216,7 @@ pub fn install_panic_hook() {
         if msg.len() > 300 {
             msg.truncate(300);
         }
-        let (harness, via_repo) = if is_repo_path(&file) {
-            (false, None)
-        } else if is_harness_path(&file) {
-            (true, None)
-        } else {
-            classify_by_backtrace()
-        };
+        let (harness, via_repo) = if is_repo_path(&file) { (false, None) } else { classify_by_backtrace() };
         LAST_PANIC.with(|c| *c.borrow_mut() = Some(PanicInfo { msg, file, line, via_repo, harness }));
     }));
 }
